@@ -3,7 +3,7 @@ from . import servefam
 from .c03 import TRUSTED
 
 THEOREMS = ['Goag.Serve.cors_arm_exact', 'Goag.Serve.options_not_shadowed', 'Goag.Serve.cors_off', 'Goag.Serve.cors_requires_handler', 'Goag.Serve.dedupKeep_spec', 'Goag.Serve.sec_headers_fragment']
-FACETS = [("route", [], "route")]
+FACETS = [("route", [], "route"), ("route", ["-params"], "params"), ("route", ["-sec"], "sec")]
 RULE = "same corpus as C03 (random well-formed template sets x methods x base forms x typed path parameters x cors x single-scheme security; enumerated + template-directed + near-miss request paths, random handler/middleware/authenticator configuration); non-trivial = not answered by the plain not-found path; distinct by (package, method, path, projected observation)"
 
 EXPLANATION = 'the (methods, headers) argument lists received by API.CORSHandler and the status of OPTIONS requests are compared with the Lean plan (NewRouter accumulation) and with the reference (declared methods; canonicalised, de-duplicated header parameters plus the headers of the security schemes)'
